@@ -1184,6 +1184,56 @@ def knows(f, node, guard, holds, params=None):
     return expected_facts(guard, holds, params if params is not None else f.params, f.module) <= facts(f, node)
 
 
+def presence_by_identity(ctx, L):
+    """A stored field value is never tested for truthiness: 0, 0.0, '', b'' and the enumerator 0 are values. In the property
+    getters / setters of prophy.generators and in encode_optional the value (the setter's argument, `self._fields.get(..)`,
+    `self._fields[..]`, encode_optional's `value`) may be compared with `is None` but must not be the operand of `if`, `not`,
+    `and` / `or`: `get(name) or DEFAULT` returns the default for a stored 0, `if new_value: check` stores unchecked falsy junk,
+    `if not value` encodes a present 0 as absent."""
+    gen = ctx.py.mod('prophy.generators')
+    desc = ctx.py.mod('prophy.descriptor')
+    funcs = [(f, [f.params[1]] if len(f.params) > 1 and f.qualname.endswith('.setter') else [])
+             for f in gen.all_funcs() if f.qualname.endswith(('.getter', '.setter'))
+             # (composite properties hold message objects, which are always truthy: `if value:` there only means "already created")
+             and 'composite_property' not in f.qualname]
+    funcs.append((desc.func('encode_optional'), ['value']))
+    n = 0
+    for f, value_names in funcs:
+        def is_value(e):
+            if isinstance(e, ast.Name) and re.sub(r'^__v\d+_', '', e.id) in value_names:
+                return True
+            if isinstance(e, ast.Call) and ws(unparse(e.func)) == 'self._fields.get' and len(e.args) == 1:
+                return True
+            if isinstance(e, ast.Subscript) and ws(unparse(e.value)) == 'self._fields' and isinstance(e.ctx, ast.Load):
+                return True
+            return False
+        tested = []
+        for node in f.walk():
+            if isinstance(node, (ast.If, ast.IfExp, ast.While)):
+                tested.append(node.test)
+            elif isinstance(node, ast.BoolOp):
+                tested.extend(node.values[:-1])
+            elif isinstance(node, ast.UnaryOp) and isinstance(node.op, ast.Not):
+                tested.append(node.operand)
+        n += 1
+        bad = []
+        for t in tested:
+            stack = [t]
+            while stack:
+                e = stack.pop()
+                if isinstance(e, ast.UnaryOp) and isinstance(e.op, ast.Not):
+                    stack.append(e.operand)
+                elif isinstance(e, ast.BoolOp):
+                    stack.extend(e.values)
+                elif is_value(e):
+                    bad.append(e)
+        L.check(not bad, 'C10g.presence-by-identity', f.fq, f.site(bad[0] if bad else None),
+                'a field value is tested for truthiness (`%s`): a stored 0 / 0.0 / empty value is then treated like an absent one '
+                '(presence is decided by `is None` / key membership only)' % (ws(unparse(bad[0])) if bad else ''),
+                ws(unparse(f.node))[:300])
+    L.floor('C10g.presence-by-identity', n, 7)
+
+
 def fails_on_every_path(f, stmt, guard, params=None):
     """Like knows_fails, but path by path: every path that reaches the statement knows the guard (or, for a conjunction, one of
     its conjuncts) to be false - what is known after a join differs per path (`if size: if too long: raise` ... `return value`)."""
